@@ -327,6 +327,10 @@ func (m *canaryReleaseManager) doCanaryJump(c *RolloutContext) (jumped bool) {
 		// compare next step and current step to decide the state we should go
 		if reflect.DeepEqual(nextStep.Replicas, currentStep.Replicas) {
 			canaryStatus.CurrentStepState = v1beta1.CanaryStepStateTrafficRouting
+			// skipping the upgrade is only sound if the step we leave had already upgraded its pods
+			if currentStepStateBackup == v1beta1.CanaryStepStateInit || currentStepStateBackup == v1beta1.CanaryStepStateUpgrade {
+				canaryStatus.CurrentStepState = v1beta1.CanaryStepStateInit
+			}
 		} else {
 			canaryStatus.CurrentStepState = v1beta1.CanaryStepStateInit
 		}
